@@ -967,3 +967,285 @@ def c04_r17(ctx):
         ctx.check(found and everywhere, key(fi, f"re-export {names} from {module}"), f"{fi.qualname} does not re-export {names} from .{module} (level 1) on every path that generates the module: "
                   "`from <package> import <Name>` - how the README tells users to reach models, enums, inputs and the client - fails", fi.loc(),
                   okmsg=f"{fi.qualname}: {names} re-exported from {module}")
+
+
+SR_ = "contrib.shorter_results:"
+
+
+@rule("C15.R13", "ShorterResults rewrites a client method only when it can (single field found), then consistently: return type, last statement and imports together", min_instances=14)
+def c15_r13(ctx):
+    repo = ctx.repo
+    effs_all = lambda c: is_name(c.func, "<setattr>") or is_name(c.func, "<setitem>") or norm(c.func) in ("self._update_imports", "self._generate_query_and_mutation_client_method", "self._generate_subscription_client_method")
+    # (a) dispatch on the last statement of the generated method
+    md = repo.func(SR_ + "ShorterResultsPlugin._modify_method_def")
+    for label, empty, kind, want in (("empty body", True, None, None), ("ends with return", False, "Return", "self._generate_query_and_mutation_client_method"),
+                                     ("ends with async for", False, "AsyncFor", "self._generate_subscription_client_method"), ("ends with anything else", False, "Expr", None)):
+        def atom(e, empty=empty, kind=kind):
+            t = norm(strip_pre(e))
+            if t == "len(method_def.body) < 1" or t == "not method_def.body":
+                return empty
+            if t in ("len(method_def.body) >= 1", "method_def.body"):
+                return not empty
+            if t.startswith("isinstance(") and ", ast." in t:
+                return t.endswith(f", ast.{kind})")
+            return None
+        outs = Interp(md, atom, is_effect=effs_all).run()
+        calls = [[dotted(strip_pre(e).func) for e in o.effects] for o in outs]
+        ctx.check(bool(calls) and all(c == ([want] if want else []) for c in calls), key(md, label), f"[method {label}] handled by {calls}; expected {[want] if want else 'nothing'}", md.loc(),
+                  okmsg=f"method {label} -> {want or 'left alone'}")
+    # (b) query / mutation methods
+    q = repo.func(SR_ + "ShorterResultsPlugin._generate_query_and_mutation_client_method")
+
+    def mkq(has_value=True, ret_name=True, found=True):
+        def atom(e):
+            t = norm(strip_pre(e))
+            if t == "return_stmt.value is None":
+                return not has_value
+            if t == "return_stmt.value is not None":
+                return has_value
+            if t == "isinstance(method_def.returns, ast.Name)":
+                return ret_name
+            if t.endswith(" is None") and "_return_or_yield_node_and_class(" in t or t == "node_and_class is None":
+                return not found
+            if t.endswith(" is not None") and "_return_or_yield_node_and_class(" in t or t == "node_and_class is not None":
+                return found
+            return None
+        return atom
+    for label, kwargs in (("no value returned", dict(has_value=False)), ("return annotation is not a plain class name", dict(ret_name=False)), ("no single field found", dict(found=False))):
+        outs = Interp(q, mkq(**kwargs), is_effect=effs_all).run()
+        ctx.check(bool(outs) and all(not o.effects for o in outs), key(q, label), f"[{label}] the method must be left untouched; effects {[[norm(strip_pre(e))[:60] for e in o.effects] for o in outs]}", q.loc(),
+                  okmsg=f"query/mutation: {label} -> untouched")
+    outs = Interp(q, mkq(), is_effect=effs_all).run()
+    nc = "_return_or_yield_node_and_class(current_return_class=method_def.returns.id, class_dict=self.class_dict)"
+    good = bool(outs)
+    for o in outs:
+        effs = [norm(strip_pre(e)) for e in o.effects]
+        good = good and len(effs) == 3 and effs[0] in (f"<setattr>(method_def, 'returns', {nc}[0])",) and \
+            effs[1] == f"<setitem>(method_def.body, -1, generate_return(value=generate_attribute(value=return_stmt.value, attr={nc}[2])))" and \
+            effs[2] in (f"self._update_imports(method_def=method_def, single_field_classes={nc}[1])", f"self._update_imports(method_def, {nc}[1])")
+    ctx.check(good, key(q, "rewrite"), f"a single-field result must be unwrapped as: returns = <field annotation>; last statement = `return <old value>.<field>`; imports updated with the classes of that annotation. Got "
+              f"{[[norm(strip_pre(e))[:110] for e in o.effects] for o in outs][:1]}", q.loc(), okmsg="query/mutation: returns, `return value.<field>` and imports rewritten together from one lookup")
+    # (c) subscriptions
+    sfn = repo.func(SR_ + "ShorterResultsPlugin._generate_subscription_client_method")
+
+    def mks(sub=True, name=True, found=True, yv=True):
+        def atom(e):
+            t = norm(strip_pre(e))
+            if t == "isinstance(method_def.returns, ast.Subscript)":
+                return sub
+            if t == "isinstance(method_def.returns.slice, ast.Name)":
+                return name
+            if "_return_or_yield_node_and_class(" in t and t.endswith(" is None") or t == "node_and_class is None":
+                return not found
+            if "_get_yield_value_from_async_for(" in t and t.endswith(" is None") or t == "previous_yield_value is None":
+                return not yv
+            return None
+        return atom
+    for label, kwargs in (("return annotation is no subscript", dict(sub=False)), ("item annotation is no plain class name", dict(name=False)), ("no single field found", dict(found=False)),
+                          ("loop does not yield", dict(yv=False))):
+        outs = Interp(sfn, mks(**kwargs), is_effect=effs_all).run()
+        ctx.check(bool(outs) and all(not o.effects for o in outs), key(sfn, label), f"[{label}] the method must be left untouched; effects {[[norm(strip_pre(e))[:60] for e in o.effects] for o in outs]}", sfn.loc(),
+                  okmsg=f"subscription: {label} -> untouched")
+    outs = Interp(sfn, mks(), is_effect=effs_all).run()
+    ncs = "_return_or_yield_node_and_class(current_return_class=method_def.returns.slice.id, class_dict=self.class_dict)"
+    good = bool(outs)
+    for o in outs:
+        effs = [norm(strip_pre(e)) for e in o.effects]
+        good = good and len(effs) == 3 and effs[0] == f"<setattr>(method_def, 'returns', generate_subscript(value=generate_name(name='AsyncIterator'), slice_={ncs}[0]))" and \
+            effs[1].startswith("<setitem>(method_def.body, -1, generate_async_for(target=async_for_stmt.target, iter_=async_for_stmt.iter, body=generate_expr(value=generate_yield(value=generate_attribute(value=") and \
+            effs[1].endswith(f", attr={ncs}[2])))))") and "_get_yield_value_from_async_for(" in effs[1] and effs[2].startswith("self._update_imports(")
+    ctx.check(good, key(sfn, "rewrite"), f"a single-field subscription result must become AsyncIterator[<field annotation>] yielding `<old value>.<field>` from the same loop: "
+              f"{[[norm(strip_pre(e))[:120] for e in o.effects] for o in outs][:1]}", sfn.loc(), okmsg="subscription: AsyncIterator[field], `yield value.<field>` in the same loop, imports updated")
+    # (d) where the unwrapped classes are imported from
+    ui = repo.func(SR_ + "ShorterResultsPlugin._update_imports")
+    effu = lambda c: (isinstance(c.func, ast.Attribute) and c.func.attr == "add") or is_name(c.func, "<setitem>")
+    el = "<elem>(single_field_classes)"
+    for label, imported, generated, src in (("imported type (scalar / fragment / enum)", True, False, f"self.imported_types[{el}]"), ("class of the operation's own module", False, True, "method_def.name"),
+                                           ("builtin / unknown name", False, False, None)):
+        def atom(e, imported=imported, generated=generated):
+            t = str(norm(strip_pre(e)))
+            for suffix, val in ((" in self.imported_types", imported), (" in self.class_dict", generated), (" in self.extended_imports", False)):
+                if t.endswith(" not" + suffix):
+                    return not val
+                if t.endswith(suffix):
+                    return val
+            return None
+        outs = [o for o in Interp(ui, atom, is_effect=effu).run() if any("loop body once" in t for t in o.trace)]
+        effs = [[norm(strip_pre(e)) for e in o.effects] for o in outs]
+        if src is None:
+            good = bool(effs) and all(not e for e in effs)
+        else:
+            good = bool(effs) and all(e == [f"<setitem>(self.extended_imports, {src}, set())", f"self.extended_imports[{src}].add({el})"] for e in effs)
+        ctx.check(good, key(ui, label), f"[{label}] import bookkeeping {effs}; expected {'nothing' if src is None else 'the class recorded under ' + src}", ui.loc(),
+                  okmsg=f"{label} -> {'no import' if src is None else 'imported from ' + src}")
+    yv = repo.func(SR_ + "_get_yield_value_from_async_for")
+    outs = [o for o in Interp(yv, lambda e: (True if norm(strip_pre(e)).startswith("isinstance(") else False if norm(strip_pre(e)).startswith("len(") and "< 1" in norm(strip_pre(e)) else None)).run()]
+    ctx.check(bool(outs) and all(o.kind == "return" and norm(strip_pre(o.value)) == "stmt.body[0].value.value" for o in outs), key(yv, "value"),
+              f"the yielded expression of the loop is stmt.body[0].value.value: {[o.text()[:80] for o in outs]}", yv.loc(), okmsg="_get_yield_value_from_async_for -> the yielded expression")
+
+
+@rule("C15.R14", "ShorterResults bookkeeping hooks record every class / import they see and pass the node on unchanged; the client module gets the imports the rewritten methods need",
+      min_instances=8)
+def c15_r14(ctx):
+    repo = ctx.repo
+    P = SR_ + "ShorterResultsPlugin."
+    eff = lambda c: is_name(c.func, "<setitem>") or (isinstance(c.func, ast.Attribute) and c.func.attr in ("append", "insert", "pop", "add"))
+    # result class
+    rc = repo.func(P + "generate_result_class")
+    outs = Interp(rc, lambda e: None, is_effect=eff).run()
+    ctx.check(bool(outs) and all(o.kind == "return" and [norm(strip_pre(e)) for e in o.effects] == ["<setitem>(self.class_dict, class_def.name, class_def)"] and
+                                 norm(strip_pre(o.value)).startswith("super().generate_result_class(class_def") for o in outs), key(rc, "records"),
+              f"every result class must be recorded under its name and handed on unchanged: {[o.text()[:120] for o in outs]}", rc.loc(), okmsg="generate_result_class: class recorded, node handed on")
+    # result module: every imported name -> the module it comes from (relative dots included)
+    rm = repo.func(P + "generate_result_types_module")
+
+    def mk(is_import=True, has_module=True, asname=False):
+        def atom(e):
+            t = str(norm(strip_pre(e)))
+            if t.startswith("isinstance(") and t.endswith(", ast.ImportFrom)"):
+                return is_import
+            if t.startswith("not isinstance(") and t.endswith(", ast.ImportFrom)"):
+                return not is_import
+            if t.endswith(".module is None"):
+                return not has_module
+            if t.endswith(".module is not None"):
+                return has_module
+            if t.endswith(".asname is not None"):
+                return asname
+            if t.endswith(".asname is None"):
+                return not asname
+            return None
+        return atom
+    st = "<elem>(module.body)"
+    al = f"<elem>({st}.names)"
+    frm = f"'.' * {st}.level + {st}.module"
+    for label, kwargs, want in (("plain import", dict(), f"<setitem>(self.imported_types, {al}.name, {frm})"), ("aliased import", dict(asname=True), f"<setitem>(self.imported_types, {al}.asname, {frm})"),
+                                ("statement that is no from-import", dict(is_import=False), None), ("from-import without module", dict(has_module=False), None)):
+        outs = [o for o in Interp(rm, mk(**kwargs), is_effect=eff).run() if o.kind == "return" and any("loop body once" in t for t in o.trace)]
+        if want is not None:
+            outs = [o for o in outs if sum(1 for t in o.trace if "loop body once" in t) >= 2]
+        effs = [[norm(strip_pre(e)) for e in o.effects] for o in outs]
+        good = bool(effs) and all((e == [want]) if want else (not e) for e in effs) and all(norm(strip_pre(o.value)).startswith("super().generate_result_types_module(module") for o in outs)
+        ctx.check(good, key(rm, label), f"[{label}] recorded {effs}; expected {want or 'nothing'} (and the module handed on)", rm.loc(), okmsg=f"result module, {label} -> {'recorded with its module path' if want else 'ignored'}")
+    # fragments module
+    fm = repo.func(P + "generate_fragments_module")
+    outs = [o for o in Interp(fm, lambda e: None, is_effect=eff).run() if o.kind == "return" and any("loop body once" in t for t in o.trace)]
+    good = bool(outs)
+    for o in outs:
+        effs = [norm(strip_pre(e)) for e in o.effects]
+        good = good and len(effs) == 1 and effs[0].startswith("<setitem>(self.imported_types, <elem>([") and "isinstance(" in effs[0] and "ast.ClassDef" in effs[0] and \
+            "fragments_module_name" in effs[0] and ".get('fragments_module_name', 'fragments')" in effs[0] and norm(strip_pre(o.value)).startswith("super().generate_fragments_module(module")
+    ctx.check(good, key(fm, "records"), f"every fragment class must be recorded as importable from the configured fragments module: {[o.text()[:200] for o in outs][:1]}", fm.loc(),
+              okmsg="fragments module: every class -> '.<fragments_module_name>'")
+    # client module
+    cm = repo.func(P + "generate_client_module")
+    effc = lambda c: norm(c.func) in ("self._modify_method_def", "module.body.insert", "self.extended_imports.pop") or (isinstance(c.func, ast.Attribute) and c.func.attr == "append" and "names" in norm(c.func))
+
+    def mkc(has_class=True, any_imports=True, is_import=True, known=True):
+        def atom(e):
+            t = str(norm(strip_pre(e)))
+            if t.startswith("not ") and "isinstance(" in t and "ast.ClassDef" in t and " or " in t:
+                return not has_class
+            if t.startswith("not next(") or t == "not client_def":
+                return not has_class
+            if t.startswith("isinstance(") and t.endswith(", ast.ClassDef)"):
+                return has_class
+            if t.startswith("not isinstance(") and t.endswith(", ast.ClassDef)"):
+                return not has_class
+            if t in ("len(self.extended_imports) == 0", "not self.extended_imports"):
+                return not any_imports
+            if t.startswith("isinstance(") and t.endswith(", ast.ImportFrom)"):
+                return is_import
+            if t.startswith("not isinstance(") and t.endswith(", ast.ImportFrom)"):
+                return not is_import
+            if t.endswith(".module not in self.extended_imports"):
+                return not known
+            if t.endswith(".module in self.extended_imports"):
+                return known
+            return None
+        return atom
+    outs = Interp(cm, mkc(has_class=False), is_effect=effc).run()
+    ctx.check(bool(outs) and all(o.kind == "return" and not o.effects and norm(strip_pre(o.value)) == "super().generate_client_module(module)" for o in outs), key(cm, "no client class"),
+              f"without a client class the module is handed on untouched: {[o.text()[:100] for o in outs]}", cm.loc(), okmsg="client module without class -> handed on")
+    outs = [o for o in Interp(cm, mkc(any_imports=False), is_effect=effc).run() if o.kind == "return"]
+    good = bool(outs) and all(norm(strip_pre(o.value)) == "super().generate_client_module(module)" for o in outs) and \
+        any(any(norm(strip_pre(e)).startswith("self._modify_method_def(") for e in o.effects) for o in outs) and not any(any("insert" in norm(strip_pre(e).func) for e in o.effects) for o in outs)
+    ctx.check(good, key(cm, "methods"), f"every method of the client class goes through _modify_method_def; without extra imports nothing else changes: {[o.text()[:140] for o in outs][:1]}", cm.loc(),
+              okmsg="every client method considered; nothing to import -> module handed on")
+    outs = [o for o in Interp(cm, mkc(), is_effect=effc).run() if o.kind == "return" and sum(1 for t in o.trace if "loop body once" in t) >= 4]
+    good = bool(outs)
+    for o in outs:
+        effs = [norm(strip_pre(e)) for e in o.effects]
+        good = good and any(".names.append(ast.alias(name=<elem>(self.extended_imports[" in e_ for e_ in effs) and any(e_.startswith("self.extended_imports.pop(") for e_ in effs) and \
+            any(e_.startswith("module.body.insert(0, generate_import_from(names=list(<elem>(self.extended_imports.items())[1]), from_=<elem>(self.extended_imports.items())[0]))") for e_ in effs)
+    ctx.check(good, key(cm, "imports"), f"names needed by rewritten methods must be added to the existing `from <module> import` of that module (and that module be ticked off), the rest imported by new statements: "
+              f"{[[norm(strip_pre(e))[:90] for e in o.effects] for o in outs][:1]}", cm.loc(), okmsg="client module: existing imports extended, remaining modules imported anew")
+
+
+@rule("C15.R15", "ShorterResults counts a class's fields including inherited ones, and collects the class names of an annotation at every nesting level", min_instances=7)
+def c15_r15(ctx):
+    repo = ctx.repo
+    gf = repo.func(SR_ + "_get_all_fields")
+    eff = lambda c: isinstance(c.func, ast.Attribute) and c.func.attr in ("append", "extend")
+
+    # after loading, both accumulation loops are comprehensions: the rule reads their name-free structure
+    outs = [o for o in Interp(gf, lambda e: None, is_effect=eff).run() if o.kind == "return"]
+    good = len(outs) >= 1
+    inherited_ok = own_ok = returned_ok = True
+    for o in outs:
+        nm = o.value.id if isinstance(o.value, ast.Name) else None
+        v = strip_pre(o.deref(o.value)) if nm else (strip_pre(o.value) if o.value is not None else None)
+        parts = [v] + [strip_pre(m) for m in (o.muts(nm) if nm else [])]
+        structs = []
+        for part in parts:
+            if isinstance(part, ast.Call) and isinstance(part.func, ast.Attribute) and part.func.attr == "extend" and part.args:
+                part = strip_pre(part.args[0])
+            if isinstance(part, ast.BinOp) and isinstance(part.op, ast.Add):
+                structs += [comp_struct(strip_pre(part.left)), comp_struct(strip_pre(part.right))]
+            else:
+                structs.append(comp_struct(part) if part is not None else None)
+        structs = [c for c in structs if c is not None]
+        flat = [(str(c[0]), [(str(a), sorted(map(str, b))) for a, b in c[1]]) for c in structs]
+        inh = ("$1", [("class_def.bases", sorted(["isinstance($0, ast.Name) and $0.id in class_dict"])), ("_get_all_fields(class_def=class_dict[$0.id], class_dict=class_dict)", [])])
+        inh2 = ("$1", [("class_def.bases", sorted(["isinstance($0, ast.Name)", "$0.id in class_dict"])), ("_get_all_fields(class_def=class_dict[$0.id], class_dict=class_dict)", [])])
+        own = ("$0", [("class_def.body", ["isinstance($0, ast.AnnAssign)"])])
+        inherited_ok = inherited_ok and (inh in flat or inh2 in flat)
+        own_ok = own_ok and own in flat
+        returned_ok = returned_ok and v is not None and len(flat) == 2
+    ctx.check(good and inherited_ok, key(gf, "inherited fields"), "fields of generated base classes (bases that are plain names found in class_dict - not BaseModel, not subscripted bases) must be collected recursively", gf.loc(),
+              okmsg="_get_all_fields: inherited fields of generated base classes, recursively")
+    ctx.check(good and own_ok, key(gf, "own fields"), "the class's own annotated assignments (and only those) must be collected", gf.loc(), okmsg="_get_all_fields: own annotated assignments")
+    ctx.check(good and returned_ok, key(gf, "returned"), f"the list returned must be exactly inherited + own fields: {[o.text()[:120] for o in outs][:1]}", gf.loc(), okmsg="_get_all_fields: returns inherited + own")
+    un = repo.func(SR_ + "_update_node")
+    p = real_params(un)[0]
+    effn = lambda c: is_name(c.func, "<setattr>") or is_name(c.func, "<setitem>") or (isinstance(c.func, ast.Attribute) and c.func.attr in ("extend", "append"))
+
+    def kind_atom(kind):
+        def atom(e):
+            t = str(norm(strip_pre(e)))
+            if t.startswith(f"isinstance({p}, ast."):
+                return t == f"isinstance({p}, ast.{kind})"
+            return None
+        return atom
+    outs = [o for o in Interp(un, kind_atom("Name"), is_effect=effn, implicit_raises={"ValueError"}).run()]
+    good = bool(outs) and all(o.kind == "return" and isinstance(strip_pre(o.value), ast.Tuple) and norm(strip_pre(o.value).elts[0]) == p and norm(strip_pre(o.value).elts[1]) == f"[{p}.id]" for o in outs) and \
+        any(any(norm(strip_pre(e)) == f"<setattr>({p}, 'id', ast.literal_eval({p}.id))" for e in o.effects) for o in outs)
+    ctx.check(good, key(un, "name"), f"a Name is unquoted (literal_eval, when it is a quoted forward reference) and reported as [its id]: {[o.text()[:100] for o in outs]}", un.loc(), okmsg="_update_node: Name -> unquoted, ([id])")
+    outs = [o for o in Interp(un, kind_atom("Tuple"), is_effect=effn).run() if o.kind == "return" and any("loop body once" in t for t in o.trace)]
+    good = bool(outs)
+    for o in outs:
+        v = strip_pre(o.value)
+        effs = [norm(strip_pre(e)) for e in o.effects]
+        nm = v.elts[1].id if isinstance(v, ast.Tuple) and isinstance(v.elts[1], ast.Name) else None
+        ms = [norm(strip_pre(m)) for m in (o.muts(nm) if nm else [])]
+        good = good and isinstance(v, ast.Tuple) and norm(v.elts[0]) == p and any(e_.startswith(f"<setitem>({p}.elts, ") and "_update_node(" in e_ and e_.endswith("[0])") for e_ in effs) and \
+            any(m_.startswith(f"{nm}.extend(_update_node(") and m_.endswith("[1])") for m_ in ms)
+    ctx.check(good, key(un, "tuple"), f"a Tuple (Union[A, B] / Dict[K, V]) has every element rewritten in place and all their ids collected: {[o.text()[:140] for o in outs][:1]}", un.loc(),
+              okmsg="_update_node: Tuple -> every element recursed, ids accumulated")
+    outs = [o for o in Interp(un, kind_atom("expr")).run()]
+    ctx.check(bool(outs) and all(o.kind == "return" and norm(strip_pre(o.value)) == f"({p}, [])" for o in outs), key(un, "other expression"), f"any other expression is kept and reports no ids: {[o.text()[:80] for o in outs]}", un.loc(),
+              okmsg="_update_node: other expression -> unchanged, []")
+    cm = repo.func(SR_ + "ShorterResultsPlugin.generate_client_module")
+    rets = [norm(r.value) for r in walk_no_nested(cm.node) if isinstance(r, ast.Return) and r.value is not None]
+    ctx.check(bool(rets) and all(r == "super().generate_client_module(module)" for r in rets) and len([r for r in walk_no_nested(cm.node) if isinstance(r, ast.Return)]) == len(rets), key(cm, "returns"),
+              f"every exit of generate_client_module hands the (rewritten) module on: {rets}", cm.loc(), okmsg="generate_client_module: every exit returns the module through the base hook")
